@@ -372,6 +372,7 @@ fn run_sockets(id: &'static str, tier: Tier, seed: u64, ctx: &Ctx, sh: u32) -> E
 
 fn qgen(emit_w: u32, clone_w: u32, drop_w: u32, step_w: u32, err_w: u32, panic_w: u32, handler_p: f64) -> QGenKind {
     QGenKind::General(QGen {
+        flush_w: 1,
         max_ops: 40,
         emit_w,
         clone_w,
